@@ -888,7 +888,35 @@ def container_cases(ctx):
             else:
                 ops.append(["get", k])
         cs.append({"kind": "container", "data": [[str(k), v] for k, v in data], "ops": ops})
+    # unknown parameter names that are ordinary words AND happen to be attributes of the dict-based container class
+    # (SETTINGS.items = ..., SETTINGS.copy = ...): unknown all the same - 'unknown parameters cannot be added to the loaded
+    # settings'.  Only assignments / updates (reading such a name yields the bound method, nothing the property speaks about);
+    # on small containers and on a container holding the package's default settings.
+    dflt = tag_dict(defaults())
+    for i in range(ctx.n(60, 500)):
+        if i % 5 == 4:
+            data = [[k, v] for k, v in dflt]
+        else:
+            data = [[str(k), vals[int(rng.integers(0, len(vals)))]]
+                    for k in rng.choice(["a", "b", "plot_split", "x"], int(rng.integers(0, 4)), replace=False)]
+        known = [k for k, _ in data]
+        ops = []
+        for _ in range(int(rng.integers(1, 6))):
+            r = rng.random()
+            if r < 0.7 or not known:
+                ops.append(["set", str(rng.choice(ATTR_WORDS)), vals[int(rng.integers(0, len(vals)))]])
+            elif r < 0.85:
+                ops.append(["set", str(rng.choice(known)), vals[int(rng.integers(0, len(vals)))]])
+            else:
+                names = [str(x) for x in rng.choice(ATTR_WORDS, int(rng.integers(1, 3)), replace=False)] + [str(rng.choice(known))]
+                ops.append(["upd", [[kk, vals[int(rng.integers(0, len(vals)))]] for kk in names]])
+        cs.append({"kind": "container", "data": data, "ops": ops})
     return cs
+
+
+# words that are not settings keys but name methods/attributes of dict / SettingsContainer / object
+ATTR_WORDS = ["items", "keys", "values", "copy", "update", "get", "pop", "clear", "setdefault", "fromkeys", "popitem",
+              "locked", "update_existing_keys", "from_json_file", "__class__", "__doc__", "__dict__", "__len__", "__module__"]
 
 
 def mergecfg_cases(ctx):
